@@ -19,13 +19,14 @@ RULE = ("bursts of 1..5 uniquely tagged messages routed back-to-back and across 
         "chooses which parked awaitable completes next, or that one connection never completes; each leaf is a fresh re-execution. Each "
         "connection's output is split by an independent XML splitter and must be exactly the routed messages in routed order; with a "
         "stalled connection the router call and every other connection must still finish within a bounded number of loop rounds. "
+        "Some scenarios carry a 200 KB message (longer than any write buffer) followed by further messages routed after each completion. "
         "In addition every script over {route one message, one loop iteration, complete a parked awaitable} up to a bounded length "
         "is executed on a single TCP / client connection, so that routing happens in every one-iteration window around a completion. "
         "non-trivial = a schedule with at least one choice point that had more than one option, a stalled connection, or a scripted interleaving; "
         "distinct = hash(scenario, choice sequence)")
 ASSUMPTIONS = ["thread-pool hand-offs are awaited on the wall clock (bounded; a timeout makes the run inconclusive, never a violation)"]
 REQUIRED_EVENTS = ["schedules", "choice_points", "outputs_checked", "tcp_scenarios", "tty_scenarios", "client_scenarios", "stalled_connection_runs",
-                   "scripted_interleavings"]
+                   "scripted_interleavings", "scenarios_with_a_message_beyond_the_write_buffer"]
 EXHAUSTIVE_NOTE = "all completion orders of the parked writes/flushes/drains for every scenario of the tier, plus every single stalled connection"
 SHARDED = True
 
@@ -83,9 +84,15 @@ class CountingExecutor(ThreadPoolExecutor):
         return super().submit(fn, *a, **kw)
 
 
-def make_message(k):
+BIG = 200_000
+
+
+def make_message(k, big=False):
     import indi.message as M
     from indi.message import one_parts
+    if big:
+        # longer than any buffer or slice size a transport may use (asyncio's write-buffer limit is 64 KiB)
+        return M.SetTextVector(device="D", name="P", state="Ok", children=(one_parts.OneText(name="a", value=f"M{k}" + "ab>cd" * (BIG // 5)),))
     if k % 2:
         return M.Message(device="D", message=f"M{k} with > and < inside")
     return M.SetTextVector(device="D", name="P", state="Ok", children=(one_parts.OneText(name="a", value=f"M{k}"), one_parts.OneText(name="b", value="x>y")))
@@ -94,11 +101,11 @@ def make_message(k):
 class Scenario:
     """conns: list of 'tcp' | 'tty' | 'client'; groups: list of burst sizes; stalled: index or None."""
 
-    def __init__(self, conns, groups, stalled=None, script=None):
-        self.conns, self.groups, self.stalled, self.script = conns, groups, stalled, script
+    def __init__(self, conns, groups, stalled=None, script=None, big=()):
+        self.conns, self.groups, self.stalled, self.script, self.big = conns, groups, stalled, script, tuple(big)
 
     def key(self):
-        return (tuple(self.conns), tuple(self.groups), self.stalled, self.script)
+        return (tuple(self.conns), tuple(self.groups), self.stalled, self.script) + ((self.big,) if self.big else ())
 
 
 async def execute(ctx, sc, prefix):
@@ -138,7 +145,7 @@ async def execute(ctx, sc, prefix):
         if not groups:
             return False
         for _ in range(groups.pop(0)):
-            msg = make_message(nmsg[0])
+            msg = make_message(nmsg[0], nmsg[0] in sc.big)
             nmsg[0] += 1
             sent.append(msg)
             t0 = time.monotonic()
@@ -271,7 +278,7 @@ async def execute(ctx, sc, prefix):
                 if rest.strip() and c["kind"] != "tty":
                     return counts, (f"stalled-connection-wrote-partial-message:{c['kind']}", rest[:200], out[-300:])
                 if got != want[:len(got)]:
-                    return counts, (f"output-out-of-order:{c['kind']}:stalled", f"connection {i}: {[g[2] or dict(g[1]).get('message') for g in got]}", out[-300:])
+                    return counts, (f"output-out-of-order:{c['kind']}:stalled", f"connection {i}: {[(g[2] or dict(g[1]).get('message') or '')[:40] for g in got]}", out[-300:])
                 continue
             if rest.strip():
                 return counts, (f"output-ends-with-partial-message:{c['kind']}", rest[:200], out[-300:])
@@ -282,7 +289,7 @@ async def execute(ctx, sc, prefix):
                     key = f"output-missing-messages:{c['kind']}" + (":another-connection-stalled" if sc.stalled is not None else "")
                 else:
                     key = f"output-differs:{c['kind']}"
-                return counts, (key, f"connection {i}: wrote {[dict(g[1]).get('message') or [k[2] for k in g[3]] for g in got]}", out[-400:])
+                return counts, (key, f"connection {i}: wrote {[dict(g[1]).get('message') or [(k[2] or '')[:40] for k in g[3]] for g in got]}", out[-400:])
             if c["kind"] == "tty" and sc.stalled is None:
                 # a message has only "appeared" once it was flushed: the last completed operation must be a flush
                 ops = [k for k, d in c["file"].out]
@@ -332,7 +339,7 @@ def explore(ctx, sc, max_schedules=None):
         if bad:
             key, what, out = bad
             ctx.violate(key, f"{what} (scenario {sc.key()}, schedule {full})",
-                        {"conns": sc.conns, "groups": sc.groups, "stalled": sc.stalled, "script": sc.script, "schedule": full}, {"output_tail": out})
+                        {"conns": sc.conns, "groups": sc.groups, "stalled": sc.stalled, "script": sc.script, "big": list(sc.big), "schedule": full}, {"output_tail": out})
             return n
         # children: alternatives at positions >= len(prefix)
         for pos in range(len(counts) - 1, len(prefix) - 1, -1):
@@ -357,6 +364,12 @@ def scenarios(ctx):
     out += [Scenario(["tcp", "tcp"], [2, 2]), Scenario(["tcp", "tty"], [2, 1]), Scenario(["tcp", "tcp", "tcp"], [1]),
             Scenario(["tcp", "tcp", "tcp"], [2]), Scenario(["tcp", "tcp", "tcp"], [3]), Scenario(["tcp", "tty", "client"], [2]),
             Scenario(["tcp", "tcp", "tcp"], [2], stalled=2), Scenario(["tcp", "tty", "tcp"], [2], stalled=1)]
+    # a message much longer than the transport's write buffer, with further messages routed after each completion
+    for kind in ("tcp", "client", "tty"):
+        out += [Scenario([kind], [1, 1, 1], big=(0,)), Scenario([kind], [1, 1, 1], big=(1,)), Scenario([kind], [2, 1], big=(1,))]
+    out += [Scenario(["tcp", "tcp"], [1, 1], big=(0,)), Scenario(["tcp", "tty"], [1, 1], big=(0,)), Scenario(["tcp", "tcp"], [1, 1], big=(0,), stalled=0)]
+    for sc_ in ("rdrdr", "rdrydr", "rdyrdr", "ryrdrd", "rdrdyrd", "rdrdrd", "rydrdr"):
+        out += [Scenario(["tcp"], [], script=sc_, big=(0,)), Scenario(["client"], [], script=sc_, big=(0,)), Scenario(["tcp"], [], script=sc_, big=(1,))]
     # exact interleavings of routing, loop iterations and completions on one connection (no thread pool involved)
     import itertools
     maxlen = 7 if not ctx.thorough else 9
@@ -389,6 +402,8 @@ def run(ctx):
         n = explore(ctx, sc, max_schedules=4000 if not ctx.thorough else 200000)
         if sc.script:
             ctx.count("scripted_interleavings")
+        if sc.big:
+            ctx.count("scenarios_with_a_message_beyond_the_write_buffer")
         if not sc.script or i % 97 == 0:
             ctx.sample({"connections": sc.conns, "bursts": sc.groups, "script": sc.script, "stalled": sc.stalled, "schedules_enumerated": n})
         if ctx.enough():
@@ -400,7 +415,7 @@ def exhaustive(ctx):
 
 
 def replay(ctx, case):
-    sc = Scenario(case["conns"], case["groups"], case.get("stalled"), case.get("script"))
+    sc = Scenario(case["conns"], case["groups"], case.get("stalled"), case.get("script"), case.get("big") or ())
     counts, bad = asyncio.run(execute(ctx, sc, case["schedule"]))
     ctx.case_fast(("replay",))
     ctx.case_fast(("replay2",))
